@@ -210,11 +210,11 @@ class Interp:
             it = Interp(self.F, cb)
             res = it.run()
             v = res.return_value()
-            if v is not None and v[0] == "ref" and not isinstance(v[1], tuple):
-                for b in cb.return_blocks():
-                    st = res.out_state(b)
-                    v = ("ref", ("constv", it.project(st, st.get(v[1], TOP), v[2])), ())
-                    break
+            stf = {}
+            for b in cb.return_blocks():
+                stf = res.out_state(b)
+                break
+            v = _detach(it, stf, v) if v is not None else None
             if v is not None and v != TOP:
                 cache[path] = v
         except Exception:
@@ -235,13 +235,11 @@ class Interp:
                 it = Interp(self.F, pb)
                 res = it.run()
                 v = res.return_value()
-                if v is not None and v[0] == "ref" and not isinstance(v[1], tuple):
-                    for b in pb.return_blocks():
-                        st = res.out_state(b)
-                        tgt = it.project(st, st.get(v[1], TOP), v[2])
-                        v = ("ref", ("constv", tgt), ())
-                        break
-                cache[idx] = v if v is not None else TOP
+                stf = {}
+                for b in pb.return_blocks():
+                    stf = res.out_state(b)
+                    break
+                cache[idx] = _detach(it, stf, v) if v is not None else TOP
             except Exception:
                 cache[idx] = TOP
         return cache[idx]
@@ -641,6 +639,19 @@ class Interp:
         return st
 
 
+def _detach(it, st, v, depth=0):
+    """make a value independent of the body it was computed in: references to that body's locals become references to
+    constant cells holding the (detached) pointee"""
+    if v is None or depth > 6:
+        return TOP
+    if v[0] == "ref" and not isinstance(v[1], tuple):
+        tgt = it.project(st, st.get(v[1], TOP), v[2])
+        return ("ref", ("constv", _detach(it, st, tgt, depth + 1)), ())
+    if v[0] == "agg":
+        return ("agg", v[1], v[2], tuple(_detach(it, st, f, depth + 1) for f in v[3]))
+    return v
+
+
 def _freeze(e):
     if isinstance(e, dict):
         return tuple(sorted((k, v if not isinstance(v, list) else tuple(v)) for k, v in e.items()))
@@ -757,6 +768,17 @@ def deref_val(interp, st, v, depth=3):
     return v if v is not None else TOP
 
 
+def deep_deref(interp, st, v, depth=0):
+    """replace references by the values they point to, inside aggregates too (for structural equality)"""
+    if v is None or depth > 6:
+        return TOP
+    if v[0] == "ref":
+        return deep_deref(interp, st, deref_val(interp, st, v), depth + 1)
+    if v[0] == "agg":
+        return ("agg", v[1], v[2], tuple(deep_deref(interp, st, f, depth + 1) for f in v[3]))
+    return v
+
+
 def _cmp_vals(a, b):
     """three-way comparison of two concrete values or None"""
     if is_int(a) and is_int(b):
@@ -773,6 +795,7 @@ def model_call(interp, st, term, argvals):
         return None
     a = [deref_val(interp, st, v) for v in argvals]
     if decl in ("std::cmp::PartialEq::eq", "std::cmp::PartialEq::ne"):
+        a = [deep_deref(interp, st, v) for v in a]
         if len(a) == 2 and is_concrete(a[0]) and is_concrete(a[1]):
             eq = a[0] == a[1]
             return Bool(eq if decl.endswith("eq") else not eq)
@@ -834,6 +857,12 @@ def model_call(interp, st, term, argvals):
     if decl == "std::ops::FromResidual::from_residual":
         v = a[0] if a else TOP
         if v[0] == "agg" and v[1] == RESULT and v[2] == 1:
+            ta = term.get("targs") or []
+            if len(ta) == 2:
+                e1 = ta[0].rstrip(">").rsplit(", ", 1)[-1]
+                e2 = ta[1].rstrip(">").rsplit(", ", 1)[-1]
+                if e1 == e2:
+                    return Err(v[3][0])     # same error type: `?` passes the error through unchanged
             return Err(TOP)
         if v[0] == "agg" and v[1] == OPTION and v[2] == 0:
             return NONE
@@ -865,6 +894,41 @@ def model_call(interp, st, term, argvals):
             return argvals[0]
         return None
     # ---- byte slices, ranges, iterators over literal bytes, closures on Option (enough for small pure helpers)
+    if res in ("memchr::memchr", "memchr::memchr::memchr"):
+        if len(a) == 2 and is_int(a[0]) and a[1][0] == "bytes":
+            i_ = a[1][1].find(bytes([a[0][1] & 0xFF]))
+            return Some(Int(i_)) if i_ >= 0 else NONE
+        return None
+    if res in ("core::slice::first", "std::slice::first"):
+        if a and a[0][0] == "bytes":
+            return Some(("ref", ("constv", Int(a[0][1][0])), ())) if a[0][1] else NONE
+        return None
+    if res in ("core::slice::is_empty", "std::slice::is_empty"):
+        if a and a[0][0] == "bytes":
+            return Bool(len(a[0][1]) == 0)
+        return None
+    if res in ("core::slice::len", "std::slice::len"):
+        if a and a[0][0] == "bytes":
+            return Int(len(a[0][1]))
+        return None
+    if res in ("std::result::Result::map_err",):
+        if len(a) == 2 and a[0][0] == "agg" and a[0][1] == RESULT:
+            if a[0][2] == 0:
+                return a[0]
+            if a[1][0] == "agg" and a[1][1].startswith("closure:") and interp.depth < 4:
+                cb = interp.F.bodies.get(a[1][1][8:])
+                if cb is not None:
+                    try:
+                        rv = Interp(interp.F, cb, Oracle(args={1: ("ref", ("constv", a[1]), ()), 2: a[0][3][0]}), inline=interp.inline, depth=interp.depth + 1).run().return_value()
+                        return Err(rv if rv is not None else TOP)
+                    except Exception:
+                        return Err(TOP)
+            return Err(TOP)
+        return None
+    if res in ("std::option::Option::ok_or",):
+        if len(a) == 2 and a[0][0] == "agg" and a[0][1] == OPTION:
+            return Ok(a[0][3][0]) if a[0][2] == 1 else Err(a[1])
+        return None
     if res in ("core::slice::iter", "std::slice::iter"):
         if a and a[0][0] == "bytes":
             return Agg("sliceiter", 0, (a[0],))
